@@ -661,7 +661,7 @@ func Run(c *core.Ctx) {
 		stream string
 		depth  int
 		n      int
-	}{{"rnd3", 3, c.Pick(20000, 500000)}, {"rnd4", 4, c.Pick(2000, 50000)}} {
+	}{{"rnd3", 3, c.Pick(20000, 2000000)}, {"rnd4", 4, c.Pick(2000, 200000)}} {
 		for i := 0; i < rs.n; i++ {
 			if !c.Take(rs.stream, i) {
 				continue
